@@ -723,16 +723,16 @@ theorem G_skip (f : Finder) (units : List Nat) (p : Nat) (acc) : ∀ (d fuel q :
 
 
 /-! fast (fixed) loop, limit none -/
-abbrev F (units : List Nat) := fastSplitLoopFixed units none
+abbrev F (units : List Nat) := fastSplitLoop units none
 
 theorem F_nil (units : List Nat) (li found : Nat) (acc) : F units [] li found acc = (acc, false, li) := by
-  simp [F, fastSplitLoopFixed]
+  simp [F, fastSplitLoop]
 
 theorem F_skip (units : List Nat) (r : List Int) (rest) (li found : Nat) (acc)
     (h : rS r = rE r ∧ (rS r = li ∨ rS r = units.length)) :
     F units (r :: rest) li found acc = F units rest li found acc := by
   obtain ⟨h1, h2⟩ := h
-  simp only [F, fastSplitLoopFixed]
+  simp only [F, fastSplitLoop]
   have e1 : (r.getD 0 0).toNat = rS r := rfl
   have e2 : (r.getD 1 0).toNat = rE r := rfl
   rw [e1, e2]
@@ -747,7 +747,7 @@ theorem F_take (units : List Nat) (r : List Int) (rest) (li found : Nat) (acc)
     F units (r :: rest) li found acc =
       F units rest (rE r) (found + 1 + (captureValsPlain units (r.drop 2)).length)
         (acc ++ [some (sub units li (rS r))] ++ captureValsPlain units (r.drop 2)) := by
-  simp only [F, fastSplitLoopFixed]
+  simp only [F, fastSplitLoop]
   have e1 : (r.getD 0 0).toNat = rS r := rfl
   have e2 : (r.getD 1 0).toNat = rE r := rfl
   rw [e1, e2]
